@@ -23,11 +23,11 @@ theorem DecodePacketNumber_model_is_source (len : Nat) (largest truncated : Int)
     (hL : -1 ≤ largest) :
     decodePN len largest truncated = DecodePacketNumber (len : Int) largest truncated := by
   have hk : ((len : Int) * 8) = ((8 * len : Nat) : Int) := by push_cast; omega
+  have hk' : (8 * (len : Int)) = ((8 * len : Nat) : Int) := by push_cast; omega
   unfold decodePN DecodePacketNumber
-  simp only [hk, bor_clearlow _ _ _ (show (0 : Int) ≤ largest + 1 by omega), shl_one]
-  have h2 : ∀ x : Int, 0 ≤ x → Int.tdiv x 2 = x / 2 := fun x hx => Int.tdiv_eq_ediv_of_nonneg hx
-  rw [h2 _ (Int.le_of_lt (Int.pow_pos (by decide)))]
-  try simp only [show (4611686018427387904 : Int) = 2 ^ 62 by decide]
+  simp only [hk, hk', bor_clearlow _ _ _ (show (0 : Int) ≤ largest + 1 by omega), shl_one]
+  tdiv_norm
+  all_goals try simp only [show (4611686018427387904 : Int) = 2 ^ 62 by decide]
   all_goals
     generalize candidateBits (8 * len) (largest + 1) truncated = c
     generalize (2 : Int) ^ (8 * len) = w
@@ -36,13 +36,8 @@ theorem DecodePacketNumber_model_is_source (len : Nat) (largest truncated : Int)
 /-- the operands of `|` in `DecodePacketNumber` are non-negative (so the prelude's `bor` is Go's `|`) -/
 theorem DecodePacketNumber_no_wrap (len : Nat) (largest truncated : Int) (hL : -1 ≤ largest) (ht : 0 ≤ truncated) :
     DecodePacketNumber_safe (len : Int) largest truncated := by
-  unfold DecodePacketNumber_safe Uquic.Trans.clearlow
-  refine ⟨?_, ht⟩
-  have hp : (0 : Int) < 2 ^ ((len : Int) * 8).toNat := Int.pow_pos (by decide)
-  have := Int.emod_nonneg (largest + 1) (Int.ne_of_gt hp)
-  have := Int.emod_lt_of_pos (largest + 1) hp
-  have h3 : (largest + 1) % 2 ^ ((len : Int) * 8).toNat ≤ largest + 1 := emod_le_self _ _ (by omega) hp
-  omega
+  unfold DecodePacketNumber_safe
+  (repeat' constructor) <;> first | assumption | omega | exact clearlow_nonneg _ _ (by omega)
 
 /-- `protocol.PacketNumberLengthForHeader`: model = source for all inputs -/
 theorem PacketNumberLengthForHeader_model_is_source (pn largestAcked : Int) :
